@@ -2,6 +2,7 @@
   C07 — Eviction removes only least-valuable per-sender suffixes, no more than needed.
 -/
 import SV.TxCache.EvictPost
+import SV.GenProofs
 namespace SV.Props.C07
 open SV SV.TxCache
 
@@ -33,5 +34,16 @@ theorem victim_independent_of_order (v : Variant) (l l' : List HItem) (b : HItem
     (hd : (l.map (·.cur.hash)).Nodup) (hp : l.Perm l') (h : popWorst v l = some (b, r)) :
     ∃ r', popWorst v l' = some (b, r') ∧ r.Perm r' :=
   popBy_perm_invariant _ l l' b r (popWorst_strictTotalOn v l) hd hp h
+
+/-! ### tie by translation: the source's own leaf logic (regenerated into SV/Generated/Funcs.lean on every run) IS the model's -/
+theorem source_threshold_tests_are_the_models (p : Pool) :
+    p.exceeded =
+      Gen.poolExceeded (Gen.tooManyBytes (clampNat p.numBytes) p.cfg.numBytesThreshold)
+        (Gen.tooManySenders (clampNat p.cntSenders) p.cfg.countThreshold)
+        (Gen.tooManyTxs (clampNat p.cntTx) p.cfg.countThreshold) := GenProofs.poolExceeded_eq p
+theorem source_comparator_is_the_models (a b : Tx) :
+    moreValuable Variant.current a b =
+      Gen.moreValuable (GenProofs.sat64 (a.ppu Variant.current)) (GenProofs.sat64 (b.ppu Variant.current))
+        a.gasLimit b.gasLimit a.hash b.hash (a.ppu Variant.current) (b.ppu Variant.current) := GenProofs.moreValuable_eq a b
 
 end SV.Props.C07
